@@ -49,3 +49,52 @@ package yang
 //@   safe
 //@   split n.FractionDigits in 0..18
 //@   split m.FractionDigits in 0..18
+//
+//@ func (Number).Equal props C15 C10
+//@   requires okNum(n) && okNum(m)
+//@   ensures  result == (val18(n) == val18(m))
+//@   pure
+//@   safe
+//
+//@ func (Number).Int props C15
+//@   ensures  result1 == nil ==> n.FractionDigits == 0 && result == sval(n)
+//@   ensures  n.FractionDigits == 0 && -9223372036854775808 <= sval(n) && sval(n) <= 9223372036854775807 ==> result1 == nil
+//@   ensures  n.FractionDigits != 0 ==> result1 != nil
+//@   modifies nothing
+//@   safe
+//@   nowrap
+//
+//@ func FromInt props C15
+//@   ensures  sval(result) == i && result.FractionDigits == 0
+//@   pure
+//@   safe
+//
+//@ func FromUint props C15
+//@   ensures  sval(result) == i && result.FractionDigits == 0 && !result.Negative
+//@   pure
+//@   safe
+//
+//@ func (Number).addQuantum props C15 C10
+//@   ensures  result.FractionDigits == n.FractionDigits
+//@   ensures  !(!n.Negative && n.Value + i > 18446744073709551615) ==> sval(result) == sval(n) + i
+//@   pure
+//@   safe
+//
+//@ func (Number).IsDecimal props C15
+//@   ensures  result == (n.FractionDigits != 0)
+//@   pure
+//@   safe
+//
+//@ func ParseInt props C15
+//@   ensures  result1 == nil ==> result.FractionDigits == 0
+//@   modifies nothing
+//@   safe
+//
+//@ func decimalValueFromString props C15
+//@   ensures  err == nil ==> n.FractionDigits == fracDigRequired && 1 <= fracDigRequired && fracDigRequired <= 18
+//@   ensures  err == nil ==> -9223372036854775808 <= sval(n) && sval(n) <= 9223372036854775807
+//@   modifies nothing
+//@   safe
+//@   nowrap
+//@   wrapok -v
+//@   wrapok uint64(v)
